@@ -10,7 +10,8 @@ from props import c01, c09
 
 ID = "C04"
 THEOREMS = ["Bufr.C04.C04_const_column", "Bufr.C04.C04_listed_column", "Bufr.C04.C04_listed_column_spec", "Bufr.C04.C04_element", "Bufr.C04.C04_minNbinc_pos", "Bufr.C04.C04_character_column_listed", "Bufr.C04.C04_character_column_const", "Bufr.C04.C04_af_column_listed",
-            "Bufr.C04.C04_marker_refers", "Bufr.C04.C04_bitmap_evaluated"]
+            "Bufr.C04.C04_marker_refers", "Bufr.C04.C04_bitmap_evaluated",
+            "Bufr.C04.C04_bitmap_index", "Bufr.C04.C04_bitmap_bits"]
 RULE = ("datasets of the C01/C02 space, re-encoded by the reference encoder with non-minimal increment widths "
         "(minimal..element width), local reference values anywhere below the minimum, explicit increments for constant "
         "columns, arbitrary R0 for listed strings, foreign compression of uncompressed data and vice versa, trailing "
